@@ -4,7 +4,7 @@
 From Coq Require Import List ZArith String Bool Permutation Lia.
 From SCC Require Import Base.Sexp Lang.SynUtil Lang.FunSyn Model.Check Sem.FunTyping
   Proof.FunInd Proof.FunEq Proof.CheckAnn Proof.TypingReject Proof.CheckBuild Proof.CheckMono
-  Proof.CheckMonoSound Proof.CheckMonoProg Proof.CheckMonoComplete.
+  Proof.CheckMonoSound Proof.CheckMonoProg Proof.CheckMonoComplete Proof.CheckDecls.
 Import ListNotations.
 Open Scope list_scope.
 
@@ -108,51 +108,8 @@ Proof.
   unfold ahas. rewrite (b_tt _ _ B), aget_tt. destruct (find_type (tdecls (fpdecls p)) q); simpl in *; assumption.
 Qed.
 
-(* ---------- Data::check / Codata::check succeed on well-formed declarations (any fragment) ---------- *)
-Section DeclsC.
-  Variable ts : list tdecl.
-  Variable fs : list fdef.
-  Variable st : symtab.
-  Hypothesis Tb : tables ts fs st.
-
-  Lemma ty_check_template_ok : forall ps t, wf_tty ts ps t = true -> ty_check_template st ps t = COk tt.
-  Proof.
-    intros ps [|n args] H; [reflexivity|]. simpl in *.
-    destruct (ahas (st_type_templates st) n) eqn:Ea; [reflexivity|].
-    destruct (mem n ps) eqn:Em; [unfold mem_name, mem in *; rewrite Em; reflexivity|].
-    destruct (find_type ts n) as [td|] eqn:Ef; [|discriminate].
-    unfold ahas in Ea. rewrite (t_tt _ _ _ Tb), Ef in Ea. discriminate.
-  Qed.
-  Lemma ctx_check_template_ok : forall ps c, forallb (fun b => wf_tty ts ps (fbty b)) c = true -> ctx_check_template st ps c = COk tt.
-  Proof.
-    induction c as [|b r IH]; intros H; [reflexivity|]. simpl in *.
-    apply andb_true_iff in H. destruct H as [Hb Hr]. rewrite (ty_check_template_ok _ _ Hb). simpl. auto.
-  Qed.
-End DeclsC.
-
-Lemma check_type_decls_ok_conv : forall ts fs st ds,
-  tables ts fs st ->
-  (forall td, In td (tdecls ds) -> forallb (xsig_ok ts (td_params td)) (td_xtors td) = true) ->
-  check_type_decls ds st = COk tt.
-Proof.
-  intros ts fs st ds Tb. induction ds as [|d r IH]; intros H; [reflexivity|].
-  destruct d as [d|d|d]; simpl in *.
-  - assert (Hd : data_check st (fdaparams d) (fdactors d) = COk tt).
-    { pose proof (H _ (or_introl eq_refl)) as Hx. simpl in Hx. clear H IH.
-      revert Hx. generalize (fdactors d). intros cs. induction cs as [|c cr IHc]; intros Hx; [reflexivity|].
-      simpl in *. apply andb_true_iff in Hx. destruct Hx as [Hc Hr]. unfold xsig_ok in Hc. simpl in Hc.
-      rewrite andb_true_r in Hc. rewrite (ctx_check_template_ok ts fs st Tb _ _ Hc). simpl. auto. }
-    rewrite Hd. simpl. apply IH. intros. apply H. right. assumption.
-  - assert (Hd : codata_check st (fcoparams d) (fcodtors d) = COk tt).
-    { pose proof (H _ (or_introl eq_refl)) as Hx. simpl in Hx. clear H IH.
-      revert Hx. generalize (fcodtors d). intros cs. induction cs as [|c cr IHc]; intros Hx; [reflexivity|].
-      simpl in *. apply andb_true_iff in Hx. destruct Hx as [Hc Hr]. unfold xsig_ok in Hc. simpl in Hc.
-      apply andb_true_iff in Hc. destruct Hc as [Hca Hct].
-      rewrite (ctx_check_template_ok ts fs st Tb _ _ Hca). simpl.
-      rewrite (ty_check_template_ok ts fs st Tb _ _ Hct). simpl. auto. }
-    rewrite Hd. simpl. apply IH. intros. apply H. right. assumption.
-  - apply IH. assumption.
-Qed.
+(* ---------- Data::check / Codata::check succeed on well-formed declarations (any fragment):
+   Proof/CheckDecls.v check_type_decls_ok_conv ---------- *)
 
 (* ---------- the well-formedness world of a well-typed program of the fragment ---------- *)
 Lemma wf_tty_nil : forall ts t, wf_tty ts [] t = wf_ty ts t.
@@ -209,6 +166,16 @@ Section DefsC.
       exists st2. splits; eauto using same_templates_trans.
   Qed.
 
+  Lemma main_ret_check_mono_ok : forall d st, main_ret_ok d = true -> tables ts fs st -> minv st ->
+    exists st', main_ret_check d st = COk st' /\ minv st' /\ same_templates st st'.
+  Proof.
+    intros d st Hm Tb I. unfold main_ret_check. unfold main_ret_ok in Hm.
+    destruct (String.eqb (fdname d) "main").
+    - apply fty_eqb_eq in Hm. rewrite Hm.
+      destruct (check_equality_mono_ok ts fs (W_ret _ _ W) FI64 st eq_refl Tb I eq_refl) as [st' [H [I' [S _]]]]. eauto.
+    - exists st. auto using same_templates_refl.
+  Qed.
+
   Lemma def_check_ok : forall d st, def_ok ts fs d = true ->
     mono_ctx (fdctx d) = true -> mono_ty (fdret d) = true -> mono_term (fdbody d) = true ->
     tables ts fs st -> minv st ->
@@ -216,12 +183,14 @@ Section DefsC.
   Proof.
     intros d st Hok Hmc Hmr Hmb Tb I. unfold def_ok in Hok.
     apply andb_true_iff in Hok. destruct Hok as [Hok Hk]. apply andb_true_iff in Hok. destruct Hok as [Hok Hwr].
-    apply andb_true_iff in Hok. destruct Hok as [Hnd Hwc].
+    apply andb_true_iff in Hok. destruct Hok as [Hnd Hwc]. apply andb_true_iff in Hnd. destruct Hnd as [Hmain Hnd].
     assert (Hrun : exists d' st', def_check_gen true d st = COk (d', st')).
     { unfold def_check_gen. unfold ctx_no_dups. rewrite nodup_ctx_no_dups_go; [|assumption|intros ? ? []]. simpl.
       destruct (ctx_check_ok _ st Hmc Hwc Tb I) as [st1 [H1 [I1 S1]]]. rewrite H1. simpl.
-      destruct (ty_check_mono_ok ts fs (W_ret _ _ W) _ st1 Hmr (tables_same _ _ _ _ Tb S1) I1 Hwr) as [st2 [H2 [I2 [S2 _]]]].
-      rewrite H2. simpl. assert (S02 : same_templates st st2) by eauto using same_templates_trans.
+      destruct (ty_check_mono_ok ts fs (W_ret _ _ W) _ st1 Hmr (tables_same _ _ _ _ Tb S1) I1 Hwr) as [st2a [H2 [I2a [S2a _]]]].
+      rewrite H2. simpl. assert (S02a : same_templates st st2a) by eauto using same_templates_trans.
+      destruct (main_ret_check_mono_ok d st2a Hmain (tables_same _ _ _ _ Tb S02a) I2a) as [st2 [H2m [I2 S2]]].
+      rewrite H2m. simpl. assert (S02 : same_templates st st2) by eauto using same_templates_trans.
       destruct (check_term_complete ts fs W WF (fdbody d) st2 (fdctx d) (fdret d) Hmb Hmc Hmr (tables_same _ _ _ _ Tb S02) I2 Hwc Hwr Hk)
         as [b' [st3 H3]].
       rewrite H3. simpl. eauto. }
@@ -287,7 +256,7 @@ Proof.
   destruct (build_symbol_table_spec p st Hb) as [Tb [_ [Hty [Hc [Hd _]]]]].
   pose proof (mono_world_of_prog p Hm Hn) as W. pose proof (wf_world_of_prog p W Ht0) as WF.
   unfold check, check_gen. rewrite Hb. simpl. unfold check_with_table_gen.
-  rewrite (check_type_decls_ok_conv _ _ st (fpdecls p) Tb); [|intros td Hin; destruct (Hps td Hin) as [? [? ?]]; auto]. simpl.
+  rewrite (check_type_decls_ok_conv _ _ st (fpdecls p) Tb); [|intros td Hin; destruct (Hps td Hin) as [? [? ?]]; auto|intros td Hin; destruct (Hps td Hin) as [? [? ?]]; auto]. simpl.
   rewrite defs_of_fdefs.
   destruct (check_defs_ok _ _ W WF (fdefs (fpdecls p)) st) as [ds' [st1 [H1 I1]]]; [|exact Tb|apply minv_start; assumption|].
   { intros d Hin. rewrite forallb_forall in Hdefs. destruct (W_defs _ _ W d Hin). splits; auto.
